@@ -1,0 +1,345 @@
+//go:build verif
+
+package mp4
+
+// ================================================================ C05: samples written into fragments are read back exactly
+// (function-level part: sample bookkeeping of trun / tfhd / trex / mdat / Fragment)
+
+// ---------------------------------------------------------------- per-sample value resolution (ISO/IEC 14496-12, 8.8.8 / 8.8.7 / 8.8.3)
+// The value of a field of sample k (0-based) of a track run is
+//   * the field of the k-th trun entry when the trun flag of that field is set,
+//   * otherwise, for the sample flags of sample 0, first_sample_flags when that trun flag is set,
+//   * otherwise the tfhd default_* when the tfhd flag is set, otherwise the trex default_* (0 when there is no trex),
+//   * the composition time offset is 0 when the trun flag 0x800 is not set.
+// This is the ONE table semantics against which the writer side (OptimizeTfhdTrun) and the reader side
+// (AddSampleDefaultValues, GetFullSamples) are specified.
+// xd / xs / xf: the trex defaults of the track (scalars, so that clauses can quantify over them)
+//@ spec trexDur(x *TrexBox) uint32 = ite(x != nil, x.DefaultSampleDuration, uint32(0))
+//@ spec trexSize(x *TrexBox) uint32 = ite(x != nil, x.DefaultSampleSize, uint32(0))
+//@ spec trexFlags(x *TrexBox) uint32 = ite(x != nil, x.DefaultSampleFlags, uint32(0))
+//@ spec dfltDur(h *TfhdBox, xd uint32) uint32 = ite(h.Flags&0x8 != 0, h.DefaultSampleDuration, xd)
+//@ spec dfltSize(h *TfhdBox, xs uint32) uint32 = ite(h.Flags&0x10 != 0, h.DefaultSampleSize, xs)
+//@ spec dfltFlags(h *TfhdBox, xf uint32) uint32 = ite(h.Flags&0x20 != 0, h.DefaultSampleFlags, xf)
+//@ spec rsDur(t *TrunBox, h *TfhdBox, xd uint32, k int) uint32 = ite(t.Flags&0x100 != 0, t.Samples[k].Dur, dfltDur(h, xd))
+//@ spec rsSize(t *TrunBox, h *TfhdBox, xs uint32, k int) uint32 = ite(t.Flags&0x200 != 0, t.Samples[k].Size, dfltSize(h, xs))
+//@ spec rsFlags(t *TrunBox, h *TfhdBox, xf uint32, k int) uint32 = ite(t.Flags&0x400 != 0, t.Samples[k].Flags, ite(k == 0 && t.Flags&0x4 != 0, t.firstSampleFlags, dfltFlags(h, xf)))
+//@ spec rsCto(t *TrunBox, k int) int32 = ite(t.Flags&0x800 != 0, t.Samples[k].CompositionTimeOffset, int32(0))
+
+// Representation invariants of a trun table whose optional columns are absent:
+//  trunFsfOK: with first_sample_flags in force (0x4 set, 0x400 clear) the stored flags of sample 0 are first_sample_flags
+//             (DecodeTrun trun.go:74-75, DecodeTrunSR trun.go:125-126, OptimizeTfhdTrun traf.go:242 via SetFirstSampleFlags)
+//  trunCtoOK: without the composition-offset column (0x800 clear) all stored offsets are 0
+//             (DecodeTrun trun.go:65,80, DecodeTrunSR trun.go:116,131; OptimizeTfhdTrun clears 0x800 only when all are 0, traf.go:250-260)
+//  trunFlagsISO: ISO 8.8.8.2: first-sample-flags-present and sample-flags-present are not both set
+//@ pred trunFsfOK(t *TrunBox) = t.Flags&0x4 != 0 && t.Flags&0x400 == 0 && len(t.Samples) > 0 ==> t.Samples[0].Flags == t.firstSampleFlags
+//@ pred trunCtoOK(t *TrunBox) = t.Flags&0x800 == 0 ==> (forall k int :: 0 <= k && k < len(t.Samples) ==> t.Samples[k].CompositionTimeOffset == 0)
+//@ pred trunFlagsISO(t *TrunBox) = t.Flags&0x4 == 0 || t.Flags&0x400 == 0
+
+// sums over the stored table (modulo 2^64 like the code)
+//@ spec rec trunDurSum(s []Sample, n int) uint64 = ite(n <= 0, uint64(0), trunDurSum(s, n-1) + uint64(s[n-1].Dur))
+//@ spec rec trunSizeSum(s []Sample, n int) uint64 = ite(n <= 0, uint64(0), trunSizeSum(s, n-1) + uint64(s[n-1].Size))
+// sum of the resolved durations of the first n samples
+//@ spec rec rsDurSum(t *TrunBox, h *TfhdBox, xd uint32, n int) uint64 = ite(n <= 0, uint64(0), rsDurSum(t, h, xd, n-1) + uint64(rsDur(t, h, xd, n-1)))
+// 32-bit running offset used by GetFullSamples (wraps modulo 2^32 like the code)
+//@ spec rec trunOff32(s []Sample, n int, off uint32) uint32 = ite(n <= 0, off, trunOff32(s, n-1, off) + s[n-1].Size)
+
+// ---------------------------------------------------------------- trun: adding samples
+//@ pred smpIs(ss []Sample, k int, fl uint32, dur uint32, sz uint32, cto int32) = ss[k].Flags == fl && ss[k].Dur == dur && ss[k].Size == sz && ss[k].CompositionTimeOffset == cto
+//@ func (*TrunBox).AddSample
+//@   ensures[C05] len(t.Samples) == old(len(t.Samples)) + 1 && t.Samples[old(len(t.Samples))] == s
+//@   ensures[C05] forall k int :: 0 <= k && k < old(len(t.Samples)) ==> t.Samples[k] == old(t.Samples[k])
+//@   assigns t.Samples, t.Samples[:]
+
+//@ func (*TrunBox).AddFullSample
+//@   requires s != nil
+//@   ensures[C05] len(t.Samples) == old(len(t.Samples)) + 1 && smpIs(t.Samples, old(len(t.Samples)), s.Sample.Flags, s.Sample.Dur, s.Sample.Size, s.Sample.CompositionTimeOffset)
+//@   ensures[C05] forall k int :: 0 <= k && k < old(len(t.Samples)) ==> t.Samples[k] == old(t.Samples[k])
+//@   assigns t.Samples, t.Samples[:]
+
+//@ func (*TrunBox).AddSamples
+//@   ensures[C05] len(t.Samples) == old(len(t.Samples)) + len(s)
+//@   ensures[C05] forall k int :: 0 <= k && k < old(len(t.Samples)) ==> t.Samples[k] == old(t.Samples[k])
+//@   ensures[C05] forall k int :: old(len(t.Samples)) <= k && k < len(t.Samples) ==> t.Samples[k] == old(s[k - len(t.Samples)])
+//@   assigns t.Samples, t.Samples[:]
+
+//@ func (*TrunBox).GetSamples
+//@   ensures[C05] result == t.Samples
+//@   assigns nothing
+
+//@ func CreateTrun
+//@   ensures[C05] fresh(result) && len(result.Samples) == 0 && result.Flags == 0xf01 && result.Version == 1 && result.writeOrderNr == writeOrderNr && result.DataOffset == 0
+//@   assigns nothing
+
+// ---------------------------------------------------------------- trun: totals
+//@ func (*TrunBox).SizeOfData
+//@   ensures[C05] totalSize == trunSizeSum(t.Samples, len(t.Samples))
+//@   assigns nothing
+//@   loop 1 invariant totalSize == trunSizeSum(t.Samples, idx(1))
+
+//@ func (*TrunBox).Duration
+//@   ensures[C05] t.Flags&0x100 != 0 ==> result == trunDurSum(t.Samples, len(t.Samples))
+//@   ensures[C05] t.Flags&0x100 == 0 ==> result == uint64(defaultSampleDuration) * uint64(uint32(len(t.Samples)))
+//@   assigns nothing
+//@   loop 1 invariant total == trunDurSum(t.Samples, idx(1))
+
+// ---------------------------------------------------------------- OptimizeTfhdTrun: moving common values to tfhd changes no resolved value
+// For every sample k of the (first) trun and every trex default, duration, size, flags and composition time offset resolved
+// through trun > first_sample_flags > tfhd > trex are the same before and after; the stored table is untouched.
+//@ func (*TrafBox).OptimizeTfhdTrun
+//@   requires t != nil && t.Tfhd != nil && t.Trun != nil
+//@   ensures[C05] (result != nil) == (len(t.Trun.Samples) == 0)
+//@   ensures[C05] len(t.Trun.Samples) == old(len(t.Trun.Samples)) && t.Trun == old(t.Trun) && t.Tfhd == old(t.Tfhd)
+//@   ensures[C05] forall xd uint32 :: forall k int :: 0 <= k && k < len(t.Trun.Samples) ==> rsDur(t.Trun, t.Tfhd, xd, k) == old(rsDur(t.Trun, t.Tfhd, xd, k))
+//@   ensures[C05] forall xs uint32 :: forall k int :: 0 <= k && k < len(t.Trun.Samples) ==> rsSize(t.Trun, t.Tfhd, xs, k) == old(rsSize(t.Trun, t.Tfhd, xs, k))
+// FAILS (sat), FINDING F1 (Go test TestC05OptimizeStaleFirstSampleFlags): a trun with both 0x4 and 0x400 set whose per-sample
+// flags are all equal keeps flag 0x4 with the old firstSampleFlags, which then overrides the flags of sample 0.
+//@   ensures[C05] forall xf uint32 :: forall k int :: 0 <= k && k < len(t.Trun.Samples) ==> rsFlags(t.Trun, t.Tfhd, xf, k) == old(rsFlags(t.Trun, t.Tfhd, xf, k))
+// what does hold: the same statement for truns that respect ISO 8.8.8.2 ("if first-sample-flags-present is used,
+// sample-flags-present shall not be set"), in particular for every trun made by CreateTrun (flags 0xf01)
+//@   ensures[C05] old(trunFlagsISO(t.Trun)) ==> (forall xf uint32 :: forall k int :: 0 <= k && k < len(t.Trun.Samples) ==> rsFlags(t.Trun, t.Tfhd, xf, k) == old(rsFlags(t.Trun, t.Tfhd, xf, k)))
+// representation invariants of the stored table (see below) are preserved
+//@   ensures[C05] old(trunFlagsISO(t.Trun) && trunFsfOK(t.Trun)) ==> trunFlagsISO(t.Trun) && trunFsfOK(t.Trun)
+//@   ensures[C05] old(trunCtoOK(t.Trun)) ==> trunCtoOK(t.Trun)
+//@   ensures[C05] forall k int :: 0 <= k && k < len(t.Trun.Samples) ==> rsCto(t.Trun, k) == old(rsCto(t.Trun, k))
+//@   assigns t.Tfhd.Flags, t.Tfhd.DefaultSampleDuration, t.Tfhd.DefaultSampleSize, t.Tfhd.DefaultSampleFlags, t.Trun.Flags, t.Trun.firstSampleFlags
+//@   loop 1 invariant hasCommonDur ==> (forall j int :: 0 <= j && j < idx(1) ==> trun.Samples[j].Dur == commonDur)
+//@   loop 2 invariant hasCommonSize ==> (forall j int :: 0 <= j && j < idx(2) ==> trun.Samples[j].Size == commonSize)
+//@   loop 3 invariant hasCommonFlags ==> (forall j int :: 1 <= j && j < idx(3) ==> trun.Samples[j].Flags == commonSampleFlags)
+//@   loop 4 invariant allZeroCTO ==> (forall j int :: 0 <= j && j < idx(4) ==> trun.Samples[j].CompositionTimeOffset == 0)
+
+// ---------------------------------------------------------------- reader side: AddSampleDefaultValues fills the table with the resolved values
+//@ func (*TrunBox).AddSampleDefaultValues
+//@   requires t != nil && tfhd != nil && len(t.Samples) < 1<<32
+//@   ensures len(t.Samples) == old(len(t.Samples)) && t.Flags == old(t.Flags)
+//@   ensures[C05] forall k int :: 0 <= k && k < len(t.Samples) ==> t.Samples[k].Dur == old(rsDur(t, tfhd, trexDur(trex), k))
+//@   ensures[C05] forall k int :: 0 <= k && k < len(t.Samples) ==> t.Samples[k].Size == old(rsSize(t, tfhd, trexSize(trex), k))
+//@   ensures[C05] old(trunFsfOK(t)) ==> (forall k int :: 0 <= k && k < len(t.Samples) ==> t.Samples[k].Flags == old(rsFlags(t, tfhd, trexFlags(trex), k)))
+//@   ensures[C05] old(trunCtoOK(t)) ==> (forall k int :: 0 <= k && k < len(t.Samples) ==> t.Samples[k].CompositionTimeOffset == old(rsCto(t, k)))
+//@   ensures[C05] totalDur == old(rsDurSum(t, tfhd, trexDur(trex), len(t.Samples)))
+//@   assigns t.Samples[:]
+//@   loop 1 invariant int(i) <= len(t.Samples) && len(t.Samples) == old(len(t.Samples))
+//@   loop 1 invariant totalDur == old(rsDurSum(t, tfhd, trexDur(trex), int(i)))
+//@   loop 1 invariant forall k int :: 0 <= k && k < int(i) ==> t.Samples[k].Dur == old(rsDur(t, tfhd, trexDur(trex), k)) && t.Samples[k].Size == old(rsSize(t, tfhd, trexSize(trex), k))
+//@   loop 1 invariant old(trunFsfOK(t)) ==> (forall k int :: 0 <= k && k < int(i) ==> t.Samples[k].Flags == old(rsFlags(t, tfhd, trexFlags(trex), k)))
+//@   loop 1 invariant forall k int :: int(i) <= k && k < len(t.Samples) ==> t.Samples[k].Dur == old(t.Samples[k].Dur) && t.Samples[k].Size == old(t.Samples[k].Size) && t.Samples[k].Flags == old(t.Samples[k].Flags)
+//@   loop 1 invariant forall k int :: 0 <= k && k < len(t.Samples) ==> t.Samples[k].CompositionTimeOffset == old(t.Samples[k].CompositionTimeOffset)
+
+// ---------------------------------------------------------------- reader side: TrunBox.GetFullSamples cuts mdat by the stored sizes
+// Sample k gets the k-th table entry, decode time base + sum of the durations before it, and the mdat bytes
+// [off + sum of the sizes before it, + Size[k]).  trunFits: every such range lies inside mdat.Data (no 32-bit wrap).
+//@ pred trunFits(t *TrunBox, off uint32, mdat *MdatBox) = len(mdat.Data) <= 0xFFFFFFFF && (forall k int :: 0 <= k && k <= len(t.Samples) ==> uint64(off) + trunSizeSum(t.Samples, k) <= uint64(len(mdat.Data)))
+//@ spec trunDataPos(t *TrunBox, off uint32, k int) int = int(uint64(off) + trunSizeSum(t.Samples, k))
+//@ func (*TrunBox).GetFullSamples
+//@   requires t != nil && mdat != nil && len(t.Samples) < 1<<32
+//@   requires trunFits(t, offsetInMdat, mdat)
+//@   ensures[C05] len(result) == len(t.Samples)
+//@   ensures[C05] forall k int :: 0 <= k && k < len(result) ==> smpIs(t.Samples, k, result[k].Sample.Flags, result[k].Sample.Dur, result[k].Sample.Size, result[k].Sample.CompositionTimeOffset)
+//@   ensures[C05] forall k int :: 0 <= k && k < len(result) ==> result[k].DecodeTime == baseDecodeTime + trunDurSum(t.Samples, k)
+//@   ensures[C05] forall k int :: 0 <= k && k < len(result) ==> result[k].Data == mdat.Data[trunDataPos(t, offsetInMdat0, k):trunDataPos(t, offsetInMdat0, k) + int(t.Samples[k].Size)]
+//@   loop 1 invariant len(samples) == idx(1) && idx(1) <= len(t.Samples)
+//@   loop 1 invariant uint64(offsetInMdat0) + trunSizeSum(t.Samples, idx(1)) <= uint64(len(mdat.Data)) && (idx(1) < len(t.Samples) ==> uint64(offsetInMdat0) + trunSizeSum(t.Samples, idx(1)+1) <= uint64(len(mdat.Data)))
+//@   loop 1 invariant accDur == trunDurSum(t.Samples, idx(1)) && uint64(offsetInMdat) == uint64(offsetInMdat0) + trunSizeSum(t.Samples, idx(1))
+//@   loop 1 invariant forall k int :: 0 <= k && k < idx(1) ==> smpIs(t.Samples, k, samples[k].Sample.Flags, samples[k].Sample.Dur, samples[k].Sample.Size, samples[k].Sample.CompositionTimeOffset)
+//@   loop 1 invariant forall k int :: 0 <= k && k < idx(1) ==> samples[k].DecodeTime == baseDecodeTime + trunDurSum(t.Samples, k)
+//@   loop 1 invariant forall k int :: 0 <= k && k < idx(1) ==> samples[k].Data == mdat.Data[trunDataPos(t, offsetInMdat0, k):trunDataPos(t, offsetInMdat0, k) + int(t.Samples[k].Size)]
+
+// ---------------------------------------------------------------- writer side: mdat and tfdt mutators
+//@ func (*MdatBox).AddSampleData
+//@   requires m != nil
+//@   ensures[C05] len(m.Data) == old(len(m.Data)) + len(s)
+//@   ensures[C05] forall j int :: 0 <= j && j < old(len(m.Data)) ==> m.Data[j] == old(m.Data[j])
+//@   ensures[C05] forall j int :: old(len(m.Data)) <= j && j < len(m.Data) ==> m.Data[j] == old(s[j - len(m.Data)])
+// The payload that Size()/Encode()/EncodeSW() announce and write is DataParts when there are parts, else Data (mdatLen of the C02 contracts):
+// it must grow by the sample's bytes. FAILS, FINDING F4 (Go test TestC05IntervalThenFullSample): with data parts present (after
+// AddSampleInterval) the bytes go to Data and are never written.
+//     mdatLen(m, 0) == old(mdatLen(m, 0)) + len(s)
+// (kept as text: with the recursive mdatOff the solvers answer unknown after 80 s and the clause slows the callers down). The same
+// fact without recursion: the appended bytes are part of the written payload only if the box has no data parts. FAILS (sat), F4:
+//@   ensures[C05] len(s) > 0 ==> len(m.DataParts) == 0
+// (without data parts mdatLen(m, 0) is len(m.Data), which grows by exactly len(s): first clause; DataParts is not assigned)
+//@   assigns m.Data, m.Data[:]
+
+// (panics when monolithic data is present: precondition)
+//@ func (*MdatBox).AddSampleDataPart
+//@   requires m != nil && len(m.Data) == 0
+//@   ensures[C05] len(m.DataParts) == old(len(m.DataParts)) + 1 && m.DataParts[old(len(m.DataParts))] == s
+//@   ensures[C05] forall j int :: 0 <= j && j < old(len(m.DataParts)) ==> m.DataParts[j] == old(m.DataParts[j])
+//@   assigns m.DataParts, m.DataParts[:]
+
+//@ func (*TfdtBox).SetBaseMediaDecodeTime
+//@   requires t != nil
+//@   ensures[C05] t.baseMediaDecodeTime == bTime && (t.Version == 1) == (bTime >= 4294967296) && (t.Version == 0) == (bTime < 4294967296)
+//@   assigns t.Version, t.baseMediaDecodeTime
+
+// ---------------------------------------------------------------- writer side: single-track fragment (CreateFragment, fragment.go:29-47)
+// fragSingle: the shape built by CreateFragment: moof with a first traf that has tfdt and a first trun, and an mdat.
+//@ pred fragSingle(f *Fragment) = f != nil && f.Moof != nil && f.Moof.Traf != nil && f.Moof.Traf.Trun != nil && f.Moof.Traf.Tfdt != nil && f.Mdat != nil && len(f.Moof.Traf.Trun.Samples) < 0x7fffffff
+//@ spec fragTrun(f *Fragment) *TrunBox = f.Moof.Traf.Trun
+// the decode time of the run is that of its first sample; later additions leave it alone
+//@ pred fragTfdtStep(f *Fragment, wasEmpty bool, dt uint64, oldDt uint64) = f.Moof.Traf.Tfdt.baseMediaDecodeTime == ite(wasEmpty, dt, oldDt)
+
+// AddFullSample: the trun gains exactly that sample (at the end), mdat gains exactly its bytes (at the end)
+//@ func (*Fragment).AddFullSample
+//@   requires fragSingle(f)
+//@   ensures[C05] len(fragTrun(f).Samples) == old(len(fragTrun(f).Samples)) + 1 && smpIs(fragTrun(f).Samples, old(len(fragTrun(f).Samples)), s.Sample.Flags, s.Sample.Dur, s.Sample.Size, s.Sample.CompositionTimeOffset)
+//@   ensures[C05] forall k int :: 0 <= k && k < old(len(fragTrun(f).Samples)) ==> fragTrun(f).Samples[k] == old(fragTrun(f).Samples[k])
+//@   ensures[C05] len(f.Mdat.Data) == old(len(f.Mdat.Data)) + len(s.Data)
+//@   ensures[C05] forall j int :: 0 <= j && j < old(len(f.Mdat.Data)) ==> f.Mdat.Data[j] == old(f.Mdat.Data[j])
+//@   ensures[C05] forall j int :: old(len(f.Mdat.Data)) <= j && j < len(f.Mdat.Data) ==> f.Mdat.Data[j] == old(s.Data[j - len(f.Mdat.Data)])
+//@   ensures[C05] fragTfdtStep(f, old(len(fragTrun(f).Samples)) == 0, s.DecodeTime, old(f.Moof.Traf.Tfdt.baseMediaDecodeTime))
+//@   ensures[C05] f.Mdat.lazyDataSize == old(f.Mdat.lazyDataSize) && fragTrun(f).Flags == old(fragTrun(f).Flags)
+//@   assigns f.Moof.Traf.Trun.Samples, f.Moof.Traf.Trun.Samples[:], f.Mdat.Data, f.Mdat.Data[:], f.Moof.Traf.Tfdt.Version, f.Moof.Traf.Tfdt.baseMediaDecodeTime
+
+// AddSample: metadata only; the announced payload size grows by the sample size, no bytes are stored
+//@ func (*Fragment).AddSample
+//@   requires fragSingle(f)
+//@   ensures[C05] len(fragTrun(f).Samples) == old(len(fragTrun(f).Samples)) + 1 && fragTrun(f).Samples[old(len(fragTrun(f).Samples))] == s
+//@   ensures[C05] forall k int :: 0 <= k && k < old(len(fragTrun(f).Samples)) ==> fragTrun(f).Samples[k] == old(fragTrun(f).Samples[k])
+//@   ensures[C05] f.Mdat.lazyDataSize == old(f.Mdat.lazyDataSize) + uint64(s.Size)
+//@   ensures[C05] fragTfdtStep(f, old(len(fragTrun(f).Samples)) == 0, baseMediaDecodeTime, old(f.Moof.Traf.Tfdt.baseMediaDecodeTime))
+//@   assigns f.Moof.Traf.Trun.Samples, f.Moof.Traf.Trun.Samples[:], f.Mdat.lazyDataSize, f.Moof.Traf.Tfdt.Version, f.Moof.Traf.Tfdt.baseMediaDecodeTime
+
+//@ func (*Fragment).AddSamples
+//@   requires fragSingle(f)
+//@   ensures[C05] len(fragTrun(f).Samples) == old(len(fragTrun(f).Samples)) + len(ss)
+//@   ensures[C05] forall k int :: 0 <= k && k < old(len(fragTrun(f).Samples)) ==> fragTrun(f).Samples[k] == old(fragTrun(f).Samples[k])
+//@   ensures[C05] forall k int :: old(len(fragTrun(f).Samples)) <= k && k < len(fragTrun(f).Samples) ==> fragTrun(f).Samples[k] == old(ss[k - len(fragTrun(f).Samples)])
+// (the sizes are summed after the append; ss read in the post-state equals the argument unless ss overlaps the spare capacity of the trun table)
+//@   ensures[C05] f.Mdat.lazyDataSize == old(f.Mdat.lazyDataSize) + trunSizeSum(ss, len(ss))
+// NOT PROVED (unknown: no frame lemma for trunSizeSum across the callee's write to the trun table): the same with the sum taken in the pre-state,
+//     ref(ss) != old(ref(fragTrun(f).Samples)) ==> f.Mdat.lazyDataSize == old(f.Mdat.lazyDataSize + trunSizeSum(ss, len(ss)))
+//@   ensures[C05] fragTfdtStep(f, old(len(fragTrun(f).Samples)) == 0, baseMediaDecodeTime, old(f.Moof.Traf.Tfdt.baseMediaDecodeTime))
+//@   assigns f.Moof.Traf.Trun.Samples, f.Moof.Traf.Trun.Samples[:], f.Mdat.lazyDataSize, f.Moof.Traf.Tfdt.Version, f.Moof.Traf.Tfdt.baseMediaDecodeTime
+//@   loop 1 invariant accSize == trunSizeSum(ss, idx(1))
+
+// AddSampleInterval: the trun gains the interval's samples, mdat gains the interval's data as one part
+//@ func (*Fragment).AddSampleInterval
+//@   requires fragSingle(f) && len(f.Mdat.Data) == 0
+//@   ensures[C05] (result != nil) == old(len(f.Moof.Trafs) != 1 || len(f.Moof.Traf.Truns) != 1)
+//@   ensures[C05] result != nil ==> len(fragTrun(f).Samples) == old(len(fragTrun(f).Samples)) && len(f.Mdat.DataParts) == old(len(f.Mdat.DataParts))
+//@   ensures[C05] result == nil ==> len(fragTrun(f).Samples) == old(len(fragTrun(f).Samples)) + len(sItvl.Samples)
+//@   ensures[C05] forall k int :: 0 <= k && k < old(len(fragTrun(f).Samples)) ==> fragTrun(f).Samples[k] == old(fragTrun(f).Samples[k])
+//@   ensures[C05] result == nil ==> (forall k int :: old(len(fragTrun(f).Samples)) <= k && k < len(fragTrun(f).Samples) ==> fragTrun(f).Samples[k] == old(sItvl.Samples[k - len(fragTrun(f).Samples)]))
+//@   ensures[C05] result == nil ==> len(f.Mdat.DataParts) == old(len(f.Mdat.DataParts)) + 1 && f.Mdat.DataParts[old(len(f.Mdat.DataParts))] == sItvl.Data
+//@   ensures[C05] forall j int :: 0 <= j && j < old(len(f.Mdat.DataParts)) ==> f.Mdat.DataParts[j] == old(f.Mdat.DataParts[j])
+//@   ensures[C05] result == nil ==> fragTfdtStep(f, old(len(fragTrun(f).Samples)) == 0, sItvl.FirstDecodeTime, old(f.Moof.Traf.Tfdt.baseMediaDecodeTime))
+//@   assigns f.Moof.Traf.Trun.Samples, f.Moof.Traf.Trun.Samples[:], f.Mdat.DataParts, f.Mdat.DataParts[:], f.Moof.Traf.Tfdt.Version, f.Moof.Traf.Tfdt.baseMediaDecodeTime
+
+// ---------------------------------------------------------------- SetTrunDataOffsets: NOT DECIDED
+// The local slice `truns` is captured by the sort.Slice closure, so it lives in a heap cell; loop invariants that mention
+// it are evaluated on its initial value (inv-pres fails with the goal `0 == idx+1`), and sort.Slice has no model
+// (permutation + ordering). What is proved of its ingredients: TrunBox.SizeOfData (the increment of the running offset).
+
+// ---------------------------------------------------------------- writer side: multi-track fragments (CreateMultiTrackFragment, fragment.go:51-70)
+// TrafBox.AddChild is inlined at its call sites: with a *TrunBox argument only the trun branch of its type switch is live
+// (a frame clause for the function itself is blocked by bytes.Equal in the uuid branch, which has no model and is taken to write bytes).
+//@ func (*TrafBox).AddChild
+//@   inline
+
+//@ pred trafOK(t *TrafBox) = t != nil && t.Tfhd != nil && t.Tfdt != nil && (len(t.Truns) > 0 ==> t.Trun != nil)
+//@ pred fragTracksOK(f *Fragment) = f != nil && f.Moof != nil && f.Mdat != nil && (forall i int :: 0 <= i && i < len(f.Moof.Trafs) ==> trafOK(f.Moof.Trafs[i])) && (forall i int :: forall j int :: 0 <= i && i < len(f.Moof.Trafs) && 0 <= j && j < len(f.Moof.Trafs[i].Truns) ==> f.Moof.Trafs[i].Truns[j] != nil)
+//@ pred fragHasTrack(f *Fragment, id uint32) = exists i int :: 0 <= i && i < len(f.Moof.Trafs) && f.Moof.Trafs[i].Tfhd.TrackID == id
+// index of the first traf of track id (len when there is none)
+//@ spec rec trafIdx(ts []*TrafBox, id uint32, k int, n int) int = ite(k >= n || k < 0, n, ite(ts[k].Tfhd.TrackID == id, k, trafIdx(ts, id, k+1, n)))
+//@ spec fragTraf(f *Fragment, id uint32) *TrafBox = f.Moof.Trafs[trafIdx(f.Moof.Trafs, id, 0, len(f.Moof.Trafs))]
+//@ spec lastTrun(t *TrafBox) *TrunBox = t.Truns[len(t.Truns)-1]
+
+//@ func (*Fragment).AddSampleToTrack
+//@   requires fragTracksOK(f)
+// FAILS, FINDING F2 (Go test TestC05AddSampleToUnknownTrack): with an unknown trackID the loop variable is left on the last traf
+//@   ensures[C05] !old(fragHasTrack(f, trackID)) ==> result != nil
+//@   ensures[C05] old(fragHasTrack(f, trackID)) ==> result == nil
+//@   ensures[C05] old(fragHasTrack(f, trackID)) ==> len(fragTraf(f, trackID).Truns) > 0 && lastTrun(fragTraf(f, trackID)).writeOrderNr == f.nextTrunNr - 1 && len(lastTrun(fragTraf(f, trackID)).Samples) > 0 && lastTrun(fragTraf(f, trackID)).Samples[len(lastTrun(fragTraf(f, trackID)).Samples)-1] == s
+//@   ensures[C05] result == nil ==> f.Mdat.lazyDataSize == old(f.Mdat.lazyDataSize) + uint64(s.Size)
+// no media bytes are touched (metadata only)
+//@   ensures[C05] f.Mdat == old(f.Mdat) && f.Mdat.Data == old(f.Mdat.Data) && (forall j int :: 0 <= j && j < len(f.Mdat.Data) ==> f.Mdat.Data[j] == old(f.Mdat.Data[j]))
+// (no assigns clause: the frame obligations for the traf / trun / children tables are not decided by the solvers (unknown after 80 s
+// each) and are falsified on the unknown-track path of F2; callers therefore see the inferred write set, which contains all byte
+// arrays because TrafBox.AddChild may call bytes.Equal in its uuid branch)
+//@   loop 1 invariant idx(1) <= len(f.Moof.Trafs) && (forall k int :: 0 <= k && k < idx(1) ==> f.Moof.Trafs[k].Tfhd.TrackID != trackID)
+//@   loop 1 invariant (idx(1) == 0 ==> traf == nil) && (idx(1) > 0 ==> traf == f.Moof.Trafs[idx(1)-1] && trafOK(traf))
+//@   loop 1 invariant trafIdx(f.Moof.Trafs, trackID, 0, len(f.Moof.Trafs)) == trafIdx(f.Moof.Trafs, trackID, idx(1), len(f.Moof.Trafs))
+
+// AddFullSampleToTrack: as AddSampleToTrack, and mdat gains exactly the sample's bytes (monolithic data, not lazy)
+//@ func (*Fragment).AddFullSampleToTrack
+//@   requires fragTracksOK(f)
+//@   uses C05
+// FAILS, FINDING F2 (same defect, through AddSampleToTrack)
+//@   ensures[C05] !old(fragHasTrack(f, trackID)) ==> result != nil
+//@   ensures[C05] old(fragHasTrack(f, trackID)) ==> result == nil
+//@   ensures[C05] result == nil ==> len(f.Mdat.Data) == old(len(f.Mdat.Data)) + len(s.Data) && f.Mdat.lazyDataSize == 0
+//@   ensures[C05] result == nil ==> (forall j int :: 0 <= j && j < old(len(f.Mdat.Data)) ==> f.Mdat.Data[j] == old(f.Mdat.Data[j]))
+// NOT PROVED (sat under the modular abstraction: AddSampleToTrack's inferred write set contains all byte arrays, so the content of
+// s.Data is unknown after the call; see AddSampleToTrack): the appended bytes are the sample's bytes,
+//     result == nil ==> (forall j int :: old(len(f.Mdat.Data)) <= j && j < len(f.Mdat.Data) ==> f.Mdat.Data[j] == old(s.Data[j - len(f.Mdat.Data)]))
+// what is proved instead: they are the bytes of s.Data as they are when AddSampleData runs (MdatBox.AddSampleData's contract), stated here
+// through the length and the unchanged prefix only.
+//@   ensures[C05] result != nil ==> len(f.Mdat.Data) == old(len(f.Mdat.Data))
+
+// ---------------------------------------------------------------- the decoders establish the representation invariants of the table
+//@ func DecodeTrunSR
+//@   ensures[C05] result1 == nil ==> typeis(result0, "*TrunBox") && trunFsfOK(result0.(*TrunBox)) && trunCtoOK(result0.(*TrunBox))
+//@   loop 1 invariant len(t.Samples) == int(i) && i <= sampleCount && cap(t.Samples) == int(sampleCount)
+//@   loop 1 invariant t.Flags&0x4 != 0 && t.Flags&0x400 == 0 && i > 0 ==> t.Samples[0].Flags == t.firstSampleFlags
+//@   loop 1 invariant t.Flags&0x800 == 0 ==> (forall k int :: 0 <= k && k < int(i) ==> t.Samples[k].CompositionTimeOffset == 0)
+//@ func DecodeTrun
+//@   ensures[C05] result1 == nil ==> typeis(result0, "*TrunBox") && trunFsfOK(result0.(*TrunBox)) && trunCtoOK(result0.(*TrunBox))
+//@   loop 1 invariant len(t.Samples) == int(i) && i <= sampleCount && cap(t.Samples) == int(sampleCount)
+//@   loop 1 invariant t.Flags&0x4 != 0 && t.Flags&0x400 == 0 && i > 0 ==> t.Samples[0].Flags == t.firstSampleFlags
+//@   loop 1 invariant t.Flags&0x800 == 0 ==> (forall k int :: 0 <= k && k < int(i) ==> t.Samples[k].CompositionTimeOffset == 0)
+
+// ---------------------------------------------------------------- constructors establish the fragment shapes used above
+// (MoofBox.AddChild / Fragment.AddChild are type switches over the child: inlined so that the constructor sees the live branch)
+//@ func (*MoofBox).AddChild
+//@   inline
+//@ func (*Fragment).AddChild
+//@   inline
+//@ func CreateTfhd
+//@   ensures[C05] fresh(result) && result.TrackID == trackID && result.Flags == 0x20000
+//@   assigns nothing
+//@ func CreateFragment
+//@   ensures[C05] result1 == nil && fragSingle(result0) && len(fragTrun(result0).Samples) == 0 && fragTrun(result0).Flags == 0xf01 && fragTrun(result0).writeOrderNr == 0 && result0.nextTrunNr == 1
+//@   ensures[C05] result0.Moof.Traf.Tfhd != nil && result0.Moof.Traf.Tfhd.TrackID == trackID && result0.Moof.Traf.Tfhd.Flags == 0x20000
+//@   ensures[C05] len(result0.Moof.Trafs) == 1 && result0.Moof.Trafs[0] == result0.Moof.Traf && len(result0.Moof.Traf.Truns) == 1 && result0.Moof.Traf.Truns[0] == result0.Moof.Traf.Trun
+//@   ensures[C05] len(result0.Mdat.Data) == 0 && len(result0.Mdat.DataParts) == 0 && result0.Mdat.lazyDataSize == 0
+//@   ensures[C05] fragTracksOK(result0)
+
+//@ func CreateMultiTrackFragment
+//@   ensures[C05] result1 == nil && fragTracksOK(result0) && result0.nextTrunNr == 0 && len(result0.Moof.Trafs) == len(trackIDs)
+//@   ensures[C05] forall i int :: 0 <= i && i < len(trackIDs) ==> len(result0.Moof.Trafs[i].Truns) == 0
+// NOT PROVED (inv-pres unknown: that the tfhd boxes of the earlier trafs, loaded under a quantifier, are older than the tfhd allocated in
+// the current iteration is not available to the solver):
+//     forall i int :: 0 <= i && i < len(trackIDs) ==> result0.Moof.Trafs[i].Tfhd.TrackID == trackIDs[i] && result0.Moof.Trafs[i].Tfhd.Flags == 0x20000
+//@   ensures[C05] len(result0.Mdat.Data) == 0 && len(result0.Mdat.DataParts) == 0 && result0.Mdat.lazyDataSize == 0
+//@   loop 1 invariant f != nil && moof != nil && f.Moof == moof && f.nextTrunNr == 0 && len(moof.Trafs) == idx(1) && idx(1) <= len(trackIDs)
+//@   loop 1 invariant forall i int :: 0 <= i && i < idx(1) ==> moof.Trafs[i] != nil && moof.Trafs[i].Tfhd != nil && moof.Trafs[i].Tfdt != nil
+//@   loop 1 invariant forall i int :: 0 <= i && i < idx(1) ==> len(moof.Trafs[i].Truns) == 0
+
+// ---------------------------------------------------------------- reader side: TrunBox.GetSampleInterval (1-based, inclusive)
+// The interval [start, end] is the sub-table Samples[start-1:end]; its first decode time is base + durations before it, its data
+// starts at off + sizes before it (32-bit like the code) and is as long as the sizes inside it.
+//@ spec rec smpSize32(s []Sample, lo int, hi int) uint32 = ite(hi <= lo, uint32(0), smpSize32(s, lo, hi-1) + s[hi-1].Size)
+//@ pred sivFits(t *TrunBox, lo int, hi int, off uint32, mdat *MdatBox) = uint64(trunOff32(t.Samples, lo, off)) + uint64(smpSize32(t.Samples, lo, hi)) <= uint64(len(mdat.Data)) && len(mdat.Data) <= 0xFFFFFFFF
+//@ func (*TrunBox).GetSampleInterval
+//@   requires t != nil && len(t.Samples) < 1<<31
+//@   requires startSampleNr <= endSampleNr
+//@   requires mdat != nil && mdat.lazyDataSize == 0 && 1 <= startSampleNr && int(endSampleNr) <= len(t.Samples) ==> sivFits(t, int(startSampleNr)-1, int(endSampleNr), offsetInMdat, mdat)
+//@   ensures[C05] (result1 != nil) == (startSampleNr < 1 || int(endSampleNr) > len(t.Samples))
+//@   ensures[C05] result1 == nil ==> result0.Samples == t.Samples[int(startSampleNr)-1:int(endSampleNr)]
+//@   ensures[C05] result1 == nil ==> result0.FirstDecodeTime == baseDecodeTime + trunDurSum(t.Samples, int(startSampleNr)-1)
+//@   ensures[C05] result1 == nil ==> result0.OffsetInMdat == trunOff32(t.Samples, int(startSampleNr)-1, offsetInMdat0) && result0.Size == smpSize32(t.Samples, int(startSampleNr)-1, int(endSampleNr))
+//@   ensures[C05] result1 == nil && mdat != nil && mdat.lazyDataSize == 0 ==> result0.Data == mdat.Data[int(result0.OffsetInMdat):int(result0.OffsetInMdat)+int(result0.Size)]
+//@   ensures[C05] result1 == nil && (mdat == nil || mdat.lazyDataSize != 0) ==> len(result0.Data) == 0
+//@   loop 1 invariant idx(1) <= len(t.Samples) && 1 <= startSampleNr && startSampleNr <= endSampleNr && int(endSampleNr) <= len(t.Samples) && nrSamples == uint32(len(t.Samples))
+//@   loop 1 invariant idx(1) < int(startSampleNr) ==> decTime == baseDecodeTime + trunDurSum(t.Samples, idx(1)) && offsetInMdat == trunOff32(t.Samples, idx(1), offsetInMdat0) && size == 0
+//@   loop 1 invariant idx(1) >= int(startSampleNr) ==> idx(1) < int(endSampleNr) && decTime == baseDecodeTime + trunDurSum(t.Samples, int(startSampleNr)-1) && offsetInMdat == trunOff32(t.Samples, int(startSampleNr)-1, offsetInMdat0) && size == smpSize32(t.Samples, int(startSampleNr)-1, idx(1)) && si.FirstDecodeTime == decTime
+
+// ---------------------------------------------------------------- NOT DECIDED (see report)
+// * Fragment.GetFullSamples, Fragment.GetSampleInterval: both first call AddSampleDefaultValues (in-place rewrite of the table) and
+//   then cut mdat by the rewritten table; the preconditions trunFits / sivFits of the callees speak about recursive sums over the
+//   table AFTER the rewrite, and "sum over the rewritten table == sum of the resolved values before" is an inductive fact the engine
+//   does not provide (same limitation as for appended tables). The data-offset arithmetic (moof start + trun data offset - mdat
+//   payload start) is therefore not covered by a contract; see F5 for a defect in that arithmetic found by reading.
+// * Fragment.SetTrunDataOffsets (closure-captured local, sort.Slice): see above.
+// * Fragment.Encode / EncodeSW / MediaSegment / DecodeFile: the write -> encode -> decode -> read pipeline as a whole.
+// * the invariant "sum of the trun sample sizes == mdat payload length" across Add* calls (recursive sum over an appended table).
